@@ -201,6 +201,7 @@ func checkC20(p *core.Program, r *core.Report) {
 	r.Rule("R2", "every asset-reference field of an action struct is visible to the reflection walker (exported, json-named) or the type declares its dependencies explicitly")
 	r.Rule("R4", "extractExitsFromWaits includes every exit of every node whose router has a wait (no other filter); node enumerators cover all actions and the router")
 	r.Rule("R5", "every action struct field whose value reaches Run.EvaluateTemplate* carries engine:\"evaluated\" (else template-borne dependencies are invisible to inspection)")
+	r.Rule("R7", "routers enumerate what they use: every receiver field of a router type whose value reaches Run.EvaluateTemplate* in its methods is passed on by its EnumerateTemplates, and every field whose type can hold a DependencyContainer or an asset reference by its EnumerateDependencies")
 	r.Assumption("inspect.walk visits exported json-tagged fields recursively (reflection semantics are not re-derived)")
 
 	actIface := p.Interface("flows", "Action")
@@ -490,6 +491,8 @@ func checkC20(p *core.Program, r *core.Report) {
 
 	// ---- R5 evaluated templates are tagged
 	c20R5(p, r, isAction)
+	// ---- R7 routers enumerate what they use
+	c20R7(p, r)
 
 	// ---- R6 merge of extracted results
 	r.Rule("R6", "NewResultSpecs merges every category of every extracted result into the spec of its key (no other filter) and copies key/name/categories into new specs")
@@ -589,7 +592,18 @@ func c20R4(p *core.Program, r *core.Report) {
 	fromLoop := false
 	for x := range core.BackSlice(uc.Call.Value, nil) {
 		if ia, ok := x.(*ssa.IndexAddr); ok {
-			if _, isConst := ia.Index.(*ssa.Const); !isConst {
+			// a real loop index: a phi in a block that one of its own predecessors is dominated by (a back edge)
+			loopIdx := false
+			for z := range core.BackSlice(ia.Index, nil) {
+				if ph, ok := z.(*ssa.Phi); ok {
+					for _, pr := range ph.Block().Preds {
+						if ph.Block().Dominates(pr) {
+							loopIdx = true
+						}
+					}
+				}
+			}
+			if _, isConst := ia.Index.(*ssa.Const); !isConst && loopIdx {
 				for y := range core.BackSlice(ia.X, func(*ssa.Call) bool { return false }) {
 					if c, ok := y.(*ssa.Call); ok && c.Call.IsInvoke() && c.Call.Method.Name() == "Exits" {
 						fromLoop = true
@@ -632,6 +646,9 @@ func c20R4(p *core.Program, r *core.Report) {
 	}
 	r.Check(bad == "" && nConds >= 3, "R4", "flows/definition.flow.extractExitsFromWaits/no-filter", p.Pos(uc.Pos()),
 		fmt.Sprintf("%d controlling conditions: loop bounds and Router()/Wait() nil tests only", nConds), "exits of waiting nodes are filtered: "+bad)
+	// no early exit: after collecting an exit control goes back to the loop over the exits (no break / return)
+	r.Check(!leavesLoopEarly(uc), "R4", "flows/definition.flow.extractExitsFromWaits/no-early-exit", p.Pos(uc.Pos()), "after an exit is collected the loop over node.Exits() continues",
+		"the loop over node.Exits() is left after an exit has been collected: the other exits of a waiting node are not listed as waiting exits")
 	// the outer loop ranges over recv.nodes
 	overNodes := false
 	for x := range core.BackSlice(uc.Call.Value, func(*ssa.Call) bool { return true }) {
@@ -695,6 +712,169 @@ func c20R4(p *core.Program, r *core.Report) {
 		r.Check(actOK, "R4", "flows/definition.node."+nm.method+"/all-actions", p.Pos(m.Pos()), "passes every recv.actions[i] to "+nm.helper, "not every action of the node is enumerated")
 		r.Check(routerOK, "R4", "flows/definition.node."+nm.method+"/router", p.Pos(m.Pos()), "calls router."+nm.routerMethod+" under the router != nil test only", "the router is not enumerated")
 	}
+}
+
+// leavesLoopEarly: from the block of `in`, some path leaves the innermost enclosing loop without going back through
+// its header (a break or return after the instruction).
+func leavesLoopEarly(in ssa.Instruction) bool {
+	fn := in.Parent()
+	var header *ssa.BasicBlock
+	for _, b := range fn.Blocks {
+		for _, sc := range b.Succs {
+			if sc.Dominates(b) && sc.Dominates(in.Block()) && (header == nil || header.Dominates(sc)) {
+				header = sc
+			}
+		}
+	}
+	if header == nil {
+		return true // not in a loop at all
+	}
+	// loop body: blocks dominated by the header from which the header is reachable
+	inBody := func(b *ssa.BasicBlock) bool {
+		return header.Dominates(b) && core.Reachable(b, nil)[header]
+	}
+	seen := map[*ssa.BasicBlock]bool{}
+	var walk func(b *ssa.BasicBlock) bool
+	walk = func(b *ssa.BasicBlock) bool {
+		if b == header || seen[b] {
+			return false
+		}
+		seen[b] = true
+		if !inBody(b) {
+			return true
+		}
+		for _, sc := range b.Succs {
+			if walk(sc) {
+				return true
+			}
+		}
+		return len(b.Succs) == 0
+	}
+	for _, sc := range in.Block().Succs {
+		if walk(sc) {
+			return true
+		}
+	}
+	return false
+}
+
+// c20R7: routers enumerate what they use. A router's EnumerateTemplates must pass on every receiver field whose value
+// reaches Run.EvaluateTemplate* in its methods; its EnumerateDependencies every receiver field whose type can hold a
+// DependencyContainer or an asset reference.
+func c20R7(p *core.Program, r *core.Report) {
+	iface := p.Interface("flows", "Router")
+	depCon := p.Interface("flows/inspect", "DependencyContainer")
+	ref := p.Interface("assets", "Reference")
+	if iface == nil || depCon == nil || ref == nil {
+		r.Errorf("flows.Router / inspect.DependencyContainer / assets.Reference not found")
+		return
+	}
+	evalNames := map[string]bool{"flows.Run.EvaluateTemplate": true, "flows.Run.EvaluateTemplateText": true, "flows.Run.EvaluateTemplateValue": true}
+	follow := func(c *ssa.Call) bool {
+		o := core.CalleeObj(&c.Call)
+		if o == nil {
+			return false
+		}
+		n := core.ObjName(o)
+		return strings.HasPrefix(n, "flows.Run.GetText") || strings.HasPrefix(n, "flows.Run.GetTranslatedTextArray") || strings.HasPrefix(n, "strings.")
+	}
+	n := 0
+	for _, named := range p.Implementers(iface) {
+		if named.Obj().Pkg() == nil || core.RelPkg(named.Obj().Pkg().Path()) != "flows/routers" {
+			continue
+		}
+		st, ok := named.Underlying().(*types.Struct)
+		if !ok {
+			continue
+		}
+		n++
+		name := named.Obj().Name()
+		fieldsOf := func(v ssa.Value, fn *ssa.Function, into map[string]bool) {
+			for x := range core.BackSlice(v, follow) {
+				if fa, ok := x.(*ssa.FieldAddr); ok {
+					t := fa.X.Type().Underlying()
+					if pt, ok := t.(*types.Pointer); ok {
+						t = pt.Elem()
+					}
+					if t == types.Type(named) {
+						into[core.FieldAddrVar(fa).Name()] = true
+					}
+				}
+			}
+		}
+		used := map[string]bool{}
+		var methods []*ssa.Function
+		for _, fn := range p.ModuleFunctions() {
+			if recvNamed(fn) == named && !p.IsTestFile(fn.Pos()) {
+				methods = append(methods, fn)
+			}
+		}
+		for _, fn := range methods {
+			for _, cs := range core.Calls(fn, true) {
+				if o := core.CalleeObj(cs.Common()); o != nil && evalNames[core.ObjName(o)] {
+					fieldsOf(cs.Common().Args[0], fn, used)
+				}
+			}
+		}
+		enumerated := func(method string) map[string]bool {
+			out := map[string]bool{}
+			m := p.Method("flows/routers", name, method)
+			if m == nil {
+				return out
+			}
+			for _, cs := range core.Calls(m, true) {
+				for _, a := range cs.Common().Args {
+					fieldsOf(a, m, out)
+				}
+			}
+			return out
+		}
+		et := enumerated("EnumerateTemplates")
+		for _, f := range core.SortedKeys(used) {
+			r.Check(et[f], "R7", "flows/routers."+name+"."+f+"/template-enumerated", p.Pos(named.Obj().Pos()), "evaluated at run time and passed on by EnumerateTemplates",
+				"flows/routers."+name+"."+f+" is evaluated as a template when routing but "+name+".EnumerateTemplates does not pass it on: fields, globals and results it references are missing from the flow's dependencies")
+		}
+		// fields that can hold dependencies
+		ed := enumerated("EnumerateDependencies")
+		var holds func(t types.Type, depth int) bool
+		holds = func(t types.Type, depth int) bool {
+			if depth > 4 {
+				return false
+			}
+			switch x := t.(type) {
+			case *types.Pointer:
+				if types.Implements(x, depCon) || types.Implements(x, ref) {
+					return true
+				}
+				return holds(x.Elem(), depth+1)
+			case *types.Slice:
+				return holds(x.Elem(), depth+1)
+			case *types.Map:
+				return holds(x.Elem(), depth+1)
+			case *types.Named:
+				if types.Implements(x, depCon) || types.Implements(types.NewPointer(x), depCon) || types.Implements(x, ref) || types.Implements(types.NewPointer(x), ref) {
+					return true
+				}
+				if sx, ok := x.Underlying().(*types.Struct); ok && x.Obj().Pkg() != nil && core.InModule(x.Obj().Pkg().Path()) {
+					for i := 0; i < sx.NumFields(); i++ {
+						if holds(sx.Field(i).Type(), depth+1) {
+							return true
+						}
+					}
+				}
+			}
+			return false
+		}
+		for i := 0; i < st.NumFields(); i++ {
+			f := st.Field(i)
+			if f.Embedded() || !holds(f.Type(), 0) {
+				continue
+			}
+			r.Check(ed[f.Name()], "R7", "flows/routers."+name+"."+f.Name()+"/dependencies-enumerated", p.Pos(f.Pos()), "can hold asset references and is passed on by EnumerateDependencies",
+				"flows/routers."+name+"."+f.Name()+" can hold asset references (its type declares dependencies) but "+name+".EnumerateDependencies does not pass it on: e.g. the groups of has_group tests are missing from the flow's dependencies")
+		}
+	}
+	r.Require("router_types", n, 2)
 }
 
 func c20R5(p *core.Program, r *core.Report, isAction map[*types.Named]bool) {
